@@ -94,7 +94,7 @@ impl PPipe {
                 match r.below(12) {
                     0 => words.push(r.pick(&["\n", "\n", "\r\n", "\r"]).to_string()),
                     1 => words.push("  ".to_string()),
-                    2 if plus => words.push(r.pick(&[" # a comment\n", " # a comment (EPSG #4230) # and more\n", " ## doubled\n", " #\n", " # a comment\r\n", " # a comment\r"]).to_string()),
+                    2 if plus => words.push(r.pick(&[" # a comment\n", " # a comment (EPSG #4230) # and more\n", " ## doubled\n", " #\n", " # a comment\r\n", " # a comment\r", " # ED50 -> ETRS89\n", " # accuracy > 1 m, < 5 m\n", " # <draft>\n"]).to_string()),
                     _ => words.push(" ".to_string()),
                 }
             }
@@ -252,6 +252,8 @@ pub fn generate(g: &mut Gen, thorough: bool) {
         "cart ellps=intl",
         "projection=1",
         "+proj=pipeline # nothing but a comment\n+step +proj=noop",
+        "+proj=pipeline # ED50 -> ETRS89\n+step +proj=addone\n+step +proj=helmert +x=3 # accuracy > 1 m",
+        "+proj=utm +zone=32 # west < east",
         "proj=pipeline\n# comment line\n+step proj=addone\n+step proj=addone inv",
         "proj=pipeline step step proj=addone step",
         "+proj=pipeline +step +inv +proj=helmert +x=3 +step +proj=addone",
